@@ -378,7 +378,48 @@ def _run_ob(obl: Ob, funcs: set, no_solver=False) -> dict:
         if getattr(obl, "stats", None):
             r["stats"] = _jsonable(obl.stats)
         return r
-    r.update(run_crosshair(obl))
+    res = run_crosshair(obl)
+    # A counterexample that does not reproduce against the real code is never reported -- but it must not end the
+    # search either (typically a degenerate corner, e.g. all axis lengths 1, where two different subscripts read the
+    # same cell): exclude its parameter region and ask the solver again, a few times.
+    import re as _re
+    excluded, retries = [], 0
+    orig_pre = obl.pre
+    while (res.get("status") == "refuted" and isinstance(res.get("args"), dict) and getattr(obl, "_replay", None) is not None
+           and retries < 4):
+        try:
+            rep, _ = obl.replay(res["args"])
+        except Exception:  # noqa: BLE001
+            break
+        if rep:
+            break
+        cand = res["args"]
+        keys = [k for k in cand if not _re.match(r"^[ik]\d+$", k)] or [k for k in cand if _re.match(r"^i\d+$", k)]
+        if not keys:
+            break
+        excluded.append({k: cand[k] for k in keys})
+        retries += 1
+
+        def pre2(_ex=tuple(excluded), _keys=tuple(keys), **p):
+            if not orig_pre(**p):
+                return False
+            for ex in _ex:
+                if all(p[k] == ex[k] for k in _keys):
+                    return False
+            return True
+        obl.pre = pre2
+        nxt = run_crosshair(obl)
+        for k in ("wall_s", "solver_s", "solver_queries", "paths"):
+            nxt[k] = round(nxt.get(k, 0) + res.get(k, 0), 3) if isinstance(nxt.get(k, 0), float) or isinstance(res.get(k, 0), float) \
+                else nxt.get(k, 0) + res.get(k, 0)
+        if nxt.get("status") == "confirmed":
+            # every remaining region holds; the excluded candidates did not reproduce: inconclusive, as before
+            res["retries_after_unreproduced_candidates"] = retries
+            break
+        res = nxt
+        res["retries_after_unreproduced_candidates"] = retries
+    obl.pre = orig_pre
+    r.update(res)
     if getattr(obl, "stats", None):
         r["stats"] = _jsonable(obl.stats)
     return r
